@@ -616,6 +616,84 @@ def restart_facts(facts):
                                         "every Mutex / RwLock / RefCell / Cell / Once* / Lazy* / Atomic* / static / thread_local! of the non-test, non-verif-hooks source of mdk-core, mdk-storage-traits, mdk-sqlite-storage (file, what)")
 
 
+# ---- validation performed by the storage backends before a write (C06 storage part, C10 limit boundary) -----------
+# quantity codes of Model/StoreLimits.lean: 0 content bytes, 1 tags JSON bytes, 2 event JSON bytes, 3 name bytes,
+# 4 description bytes, 5 admin-pubkeys JSON bytes, 6 relays JSON bytes, 7 number of admins, 8 number of relays,
+# 9 bytes of a relay URL
+LIMIT_QUANTITIES = [
+    (5, r"to_string\(&\w+\.(?:group_)?admin_pubkeys\)"), (6, r"to_string\(&\w+\.group_relays\)"), (1, r"to_string\(&\w+\.tags\)"),
+    (2, r"\.event\.as_json\(\)"), (0, r"\.content\b"), (3, r"\.(?:group_)?name\b"), (4, r"\.(?:group_)?description\b"),
+    (7, r"\.(?:group_)?admin_pubkeys$"), (8, r"\.group_relays$"), (9, r"\.as_str\(\)$"),
+]
+
+def limit_checks(src, fn, consts_src, field_consts=None, relay_param_type=None):
+    """[(quantity, limit, limit-itself-accepted)] of the refusals `if <expr>.len() > <limit> { return Err(..` a saving function
+    performs (helpers are inlined by fn_body, so a check written in place and one behind a helper read the same)"""
+    body = flat(fn_body(src, fn, "fn:" + fn))
+    relay_param = None
+    if relay_param_type:
+        relay_param = param_of_type(src, fn, relay_param_type, "fn:" + fn)
+    res = []
+    for m in re.finditer(r"\bif ([^{};]+?)\.len\(\) ?(>=|>|<=|<|==|!=) ?([^{};]+?) ?\{ ?return Err\(", body):
+        expr, op, lim = m.group(1).strip(), m.group(2), m.group(3).strip()
+        lm = re.fullmatch(r"(\w+)((?:\.as_bytes\(\)|\.as_str\(\))*)", expr)
+        if lm:                                             # a local: look through its `let`
+            lt = re.search(r"\blet (?:mut )?" + re.escape(lm.group(1)) + r"(?: ?: ?[^=;]+)? ?= ?([^;]+);", body)
+            if lt:
+                expr = lt.group(1).strip() + lm.group(2)
+        core = re.sub(r"(?:\.as_bytes\(\))+$", "", expr)
+        q = None
+        if relay_param and re.fullmatch(re.escape(relay_param), core):
+            q = 8
+        else:
+            for code, pat in LIMIT_QUANTITIES:
+                if re.search(pat, core):
+                    q = code
+                    break
+        if q is None:
+            raise Missing(f"limit:{fn}:quantity:{tight(expr)[:40]}")
+        if op not in (">", ">="):
+            raise Missing(f"limit:{fn}:operator:{op}")
+        fm = re.fullmatch(r"self\.limits\.(\w+)", lim)
+        if fm:
+            if not field_consts or fm.group(1) not in field_consts:
+                raise Missing(f"limit:{fn}:field:{fm.group(1)}")
+            val = field_consts[fm.group(1)]
+        elif re.fullmatch(r"[A-Z][A-Z0-9_]*", lim):
+            val = const_usize(consts_src, lim, f"const:{lim}")
+        else:
+            e = re.sub(r"(?<=[0-9])(usize|u64|u32)\b", "", lim.replace("_", ""))
+            if not re.fullmatch(r"[0-9\s\*\+\(\)]+", e):
+                raise Missing(f"limit:{fn}:bound:{tight(lim)[:40]}")
+            val = int(eval(e))
+        res.append((q, val, op == ">"))
+    return res
+
+def limit_facts(facts):
+    mem_lib = strip_comments(non_test(read("crates/mdk-memory-storage/src/lib.rs")))
+    sql_val = strip_comments(non_test(read("crates/mdk-sqlite-storage/src/validation.rs")))
+    # the memory backend's limits are fields of ValidationLimits; the backend under test is built with Default
+    dflt = fn_body_raw(mem_lib[at(r"impl\s+Default\s+for\s+ValidationLimits", mem_lib):] if at(r"impl\s+Default\s+for\s+ValidationLimits", mem_lib) >= 0 else "", "default", "impl:Default:ValidationLimits")
+    field_consts = {}
+    for m in re.finditer(r"\b(\w+)\s*:\s*([A-Z][A-Z0-9_]*|[0-9_]+)\s*[,}]", dflt):
+        v = m.group(2)
+        field_consts[m.group(1)] = int(v.replace("_", "")) if v[0].isdigit() else const_usize(mem_lib, v, f"const:{v}")
+    relset = r"BTreeSet\s*<\s*RelayUrl\s*>"
+    table = [("sqlSaveGroupChecks", "crates/mdk-sqlite-storage/src/groups.rs", "save_group", None),
+             ("sqlSaveMessageChecks", "crates/mdk-sqlite-storage/src/messages.rs", "save_message", None),
+             ("sqlSaveWelcomeChecks", "crates/mdk-sqlite-storage/src/welcomes.rs", "save_welcome", None),
+             ("sqlReplaceRelaysChecks", "crates/mdk-sqlite-storage/src/groups.rs", "replace_group_relays", relset),
+             ("memSaveGroupChecks", "crates/mdk-memory-storage/src/groups.rs", "save_group", None),
+             ("memSaveMessageChecks", "crates/mdk-memory-storage/src/messages.rs", "save_message", None),
+             ("memSaveWelcomeChecks", "crates/mdk-memory-storage/src/welcomes.rs", "save_welcome", None),
+             ("memReplaceRelaysChecks", "crates/mdk-memory-storage/src/groups.rs", "replace_group_relays", relset)]
+    for name, rel, fn, rp in table:
+        src = strip_comments(non_test(read(rel)))
+        cs = limit_checks(src, fn, sql_val if name.startswith("sql") else mem_lib, field_consts, rp)
+        facts[name] = ("List (Nat × Nat × Bool)", "[" + ", ".join(f"({q}, {v}, {lean_bool(b)})" for q, v, b in cs) + "]",
+                       f"{rel} {fn}: the refusals `if <expr>.len() > <limit> {{ return Err` before the write, as (quantity, limit, limit itself accepted); quantity codes in tools/gen_model.py LIMIT_QUANTITIES")
+
+
 def main():
     facts = {}      # name -> (lean type, lean value, provenance)
     def nat(name, v, prov): facts[name] = ("Nat", str(v), prov)
@@ -1243,6 +1321,7 @@ def main():
     # ---- outer layer of process_message (C06 wrap / C08 routing; engine `wrap`) ---------------------------
     wrap_facts(facts, nat, boolean, strlist)
     restart_facts(facts)
+    limit_facts(facts)
 
     # ---- ffi facts (C06, first sentence): tables and parse plans of crates/mdk-uniffi/src/lib.rs ----------
     ffi_rs = strip_comments(non_test(read("crates/mdk-uniffi/src/lib.rs")))
